@@ -45,6 +45,14 @@ Theorem C03_shiftMulti : forall a b s, 0 <= s < 64 -> 0 <= b < 2 ^ (s + 1) ->
 Proof. exact shiftMulti_spec. Qed.
 Print Assumptions C03_shiftMulti.
 
+(** the same with the sum written out over the bit positions 0 .. shift *)
+Theorem C03_shiftMulti_sum : forall a b s, 0 <= s < 64 -> 0 <= b < 2 ^ (s + 1) ->
+  shiftMulti a b s =
+  Some (u64 (zsum (map (fun k => if Z.testbit b (Z.of_nat k) then a / 2 ^ (s - Z.of_nat k) else 0)
+                       (seq 0 (Z.to_nat (s + 1)))))).
+Proof. exact shiftMulti_sum. Qed.
+Print Assumptions C03_shiftMulti_sum.
+
 (** PathToIndexLoose: (number of stored nodes before q in pre-order, is q's own level stored) —
     for EVERY node q of the tree, in all three branches (full, leaf-only, general) *)
 Theorem C03_loose : forall T h q, 1 <= T < 2 ^ 31 -> Height T = Z.of_nat h -> (length q <= h)%nat ->
